@@ -8,7 +8,9 @@ MANIFEST = {
     "engine": "K+M",
     "technique": "bounded model checking (Kani/CBMC, SAT) of tea-time's Time constructors/getters, Time +- TimeDelta and the "
                  "TimeDelta operators with chrono::Duration's (secs, nanos) arithmetic executed for real; month dispatch with "
-                 "chrono's checked_add_months/checked_sub_months replaced by recorders",
+                 "chrono's checked_add_months/checked_sub_months replaced by recorders; MIR->SMT symbolic execution of DateTime +- TimeDelta, "
+                 "DateTime - DateTime and DateTime::duration_trunc over mathematical integers with chrono replaced by its documented instant / "
+                 "calendar contract (validated against the real chrono each run), decided by z3 (LIA)",
     "design_ref": "DESIGN.md 3/C17",
     "level_text": "CBMC decides: (1) TimeDelta +, -, unary -, * i32 satisfy a+b-b=a, a-b+b=a, a-b=a+(-b), a+(-a)=0, -(-a)=a, a+0=a, "
                   "associativity and commutativity for all |months|<=1200, |secs|<=2^40 (2^50 thorough) and every sub-second part; "
@@ -23,10 +25,15 @@ MANIFEST = {
                   "(every sub-second part, both signs) whenever the result is inside the day, and (t+d)-d = t, (t-d)+d = t; "
                   "(4) DateTime<U> +- TimeDelta with months != 0 makes exactly one chrono Months call, forward shifts add and backward "
                   "shifts subtract |months|, for every non-zero valid i32 month count (one concrete instant per unit); "
+                  "(5) z3 decides on the MIR, for every date-time of 1678..2262 at the four units: t +- d is the floor of the exact instant for every "
+                  "month-free d, (t + d) - d = t and (t - d) + d = t for d a whole number of units, a - b exact and (a - b) + b = a, truncation to "
+                  "7 (13 thorough) month-free spans is the greatest multiple not after t, t +- n months is the calendar shift with end-of-month "
+                  "clamping for every n in -1200..1200, truncation to 1/2/3/4/6/12 months is the first instant of the period, no panic; "
                   "counterexamples are replayed natively",
     "level_note": "trusted: Kani's MIR->goto translation, CBMC, CaDiCaL / Kissat (selected per harness); chrono::Duration's documented meaning (secs*1e9+nanos, "
-                  "0<=nanos<1e9). DateTime +- TimeDelta, DateTime - DateTime with valid operands, month clamping and duration_trunc "
-                  "go through chrono's calendar conversion and are outside this engine's claim",
+                  "0<=nanos<1e9); for (5) chrono's documented contract (instants and durations as integers of nanoseconds, floor "
+                  "conversions, proleptic Gregorian calendar, Months clamping, DurationRound) stands in for chrono and is compared with the real chrono "
+                  "on ~1900 concrete operand sets per run; symbolic truncation spans and durations with both month and sub-month parts are outside",
 }
 
 
